@@ -8,6 +8,7 @@ listed in known_findings.jsonl (`fixed` entries); `Outcome.panic` stands for
 every slice/index/unwrap/overflow that could fire.
 -/
 import Rc.Lemmas.BmpBytes
+import Rc.Lemmas.BmpAccept
 import Rc.Lemmas.OpenParse
 import Rc.Lemmas.BmpEmbedded
 
@@ -318,7 +319,13 @@ private theorem upd_header_body {bs body : Bytes} {hl : Nat} {ty : UInt8}
       | [a], h => simp [rd16] at h
       | [], h => simp [rd16] at h
 
-/-- **The embedded UPDATE decodes exactly as it would on its own.**  For an accepted
+/-- **The embedded UPDATE decodes exactly as it would on its own.**  (What carries content here:
+conjunct 2 - no panic, from C02 `parse_total` - and conjunct 5 - which octets the value keeps.
+Conjuncts 1, 3 and 4 hold BY CONSTRUCTION of the model: `rmUpdate` and `updFromOctets` are both
+defined through `Rc.Upd.parseUpdate` on the octets after the per-peer header, which encodes the
+ASSUMPTION that `UpdateMessage::parse` is position-relative (tools/props/C15.json, assumptions); the
+clause itself is decided on the real code by the harness: `bgp_update()` against
+`UpdateMessage::from_octets` on the same octets, token `same=1`, judged by the oracle.)  For an accepted
 RouteMonitoring message and every session configuration, `bgp_update(config)`
 (`UpdateMessage::parse` on a parser over the whole BMP message advanced by 48) (1) is
 `UpdateMessage::parse` of the octets after the per-peer header – it never panics (the
@@ -454,5 +461,279 @@ theorem peer_down_roundtrip (hdr payload : Bytes) (reason : Nat) (hh : hdr.lengt
       rw [this, List.drop_left']
       rfl
     rw [this, hk]
+
+/-! ## acceptance: "for every well-formed BMP message of each type decoding SUCCEEDS"
+
+A well-formed message is `encMsg typ body` = `encCommon (6 + body.length) typ ++ body` with the body of
+its type built by the reference encoders.  The theorems below hold for every value `len` of the
+header's length field (`Message::from_octets` does not compare it with the octets it is given), so in
+particular for the message's own length.  `WfPph` / `WfStat` / `WfTlv` / `WfTerm` say only that every
+field fits its wire width; the per-peer header's peer type is one of the four defined ones (0..3:
+`PerPeerHeader::check` refuses others). -/
+
+private theorem fromOctets_enc (len typ : Nat) (k : MsgKind) (rest : Bytes) (hk : kindOf typ = some k)
+    (hc : checkKind deps k (encCommon len typ ++ rest) = .ok ()) :
+    fromOctets deps (encCommon len typ ++ rest) = .ok k := by
+  have ht : typ ≤ 6 := by
+    unfold kindOf at hk
+    split at hk <;> first | omega | simp at hk
+  unfold fromOctets
+  have hl : ¬ (encCommon len typ ++ rest).length < 6 := by simp [encCommon, List.length_append]; omega
+  simp only [hl, if_false]
+  have h5 : idx (encCommon len typ ++ rest) 5 = .ok typ := by
+    have := idx_shift ([3] ++ be32 len) (UInt8.ofNat typ :: rest) 0
+    simp only [List.length_append, List.length_singleton, be32_length, Nat.add_zero] at this
+    have e : ([3] ++ be32 len ++ UInt8.ofNat typ :: rest) = encCommon len typ ++ rest := by simp [encCommon]
+    rw [e] at this
+    rw [this]
+    simp [idx, beAt, beNat, UInt8.toNat_ofNat']
+    omega
+  rw [h5]
+  simp only [hk, hc]
+
+/-- **common header**: version, message length and message type are reported as encoded -/
+theorem common_header_roundtrip (len typ : Nat) (rest : Bytes) (hl : len < 4294967296) (ht : typ < 256) :
+    chVersion (encCommon len typ ++ rest) = .ok 3 ∧ chLength (encCommon len typ ++ rest) = .ok len ∧
+    chMsgType (encCommon len typ ++ rest) = .ok typ := by
+  refine ⟨?_, ?_, ?_⟩
+  · simp [chVersion, idx, encCommon, beAt, beNat]
+  · unfold chLength
+    have := rdBE_mid [3] (be32 len) ([UInt8.ofNat typ] ++ rest) 1 4 rfl (by simp)
+    have e : [3] ++ (be32 len ++ ([UInt8.ofNat typ] ++ rest)) = encCommon len typ ++ rest := by simp [encCommon]
+    rw [e] at this
+    rw [this, beNat_be32 _ hl]
+  · unfold chMsgType
+    have := idx_shift ([3] ++ be32 len) (UInt8.ofNat typ :: rest) 0
+    simp only [List.length_append, List.length_singleton, be32_length, Nat.add_zero] at this
+    have e : ([3] ++ be32 len ++ UInt8.ofNat typ :: rest) = encCommon len typ ++ rest := by simp [encCommon]
+    rw [e] at this
+    rw [this]
+    simp [idx, beAt, beNat, UInt8.toNat_ofNat']
+    omega
+
+/-- **Route Monitoring** (type 0): accepted whatever follows the per-peer header; the octets handed to
+the UPDATE decoder are exactly the embedded UPDATE -/
+theorem route_monitoring_accepted (len : Nat) (p : Pph) (hp : WfPph p) (hpt : p.peerType ≤ 3) (upd : Bytes) :
+    fromOctets deps (encCommon len 0 ++ (encPph p ++ upd)) = .ok .routeMonitoring ∧
+    rmUpdateBytes (encCommon len 0 ++ (encPph p ++ upd)) = .ok upd := by
+  refine ⟨fromOctets_enc len 0 _ _ rfl ?_, ?_⟩
+  · simp only [checkKind, routeMonitoringCheck, bothCheck_enc len 0 (by omega) p hp hpt]
+  · have hl := encPph_length p hp
+    unfold rmUpdateBytes
+    have : COFF ≤ (encCommon len 0 ++ (encPph p ++ upd)).length := by
+      simp [COFF, List.length_append, encCommon_length, hl]; omega
+    simp only [this, if_true]
+    rw [← List.append_assoc, drop_mid _ _ COFF (by simp [COFF, List.length_append, encCommon_length, hl])]
+
+/-- **Route Mirroring** (type 6): accepted whatever follows the per-peer header -/
+theorem route_mirroring_accepted (len : Nat) (p : Pph) (hp : WfPph p) (hpt : p.peerType ≤ 3) (body : Bytes) :
+    fromOctets deps (encCommon len 6 ++ (encPph p ++ body)) = .ok .routeMirroring :=
+  fromOctets_enc len 6 _ _ rfl (by
+    simp only [checkKind, routeMirroringCheck, routeMonitoringCheck, bothCheck_enc len 6 (by omega) p hp hpt])
+
+/-- **Statistics Report** (type 1): accepted for every list of statistics (every defined type and
+unknown ones, any number below 2^32); `statistics_roundtrip` (with `hdr` = the two headers) says what
+the iterator then yields -/
+theorem statistics_accepted (len : Nat) (p : Pph) (hp : WfPph p) (hpt : p.peerType ≤ 3) (ss : List Stat)
+    (hn : ss.length < 4294967296) (h : ∀ s ∈ ss, WfStat s) :
+    fromOctets deps (encCommon len 1 ++ (encPph p ++ (be32 ss.length ++ ss.flatMap encStat)))
+      = .ok .statisticsReport := by
+  refine fromOctets_enc len 1 _ _ rfl ?_
+  have hl := encPph_length p hp
+  simp only [checkKind, statsCheck, bothCheck_enc len 1 (by omega) p hp hpt]
+  have hpre : (encCommon len 1 ++ encPph p).length = 48 := by simp [List.length_append, encCommon_length, hl]
+  have h1 := cU32_at (encCommon len 1 ++ encPph p) ss.length hn (ss.flatMap encStat)
+  rw [hpre] at h1
+  simp only [List.append_assoc] at h1
+  rw [h1]
+  dsimp only
+  have h2 := statsLoop_enc encStat ss (fun s hs => framed_stat s (h s hs)) (encCommon len 1 ++ encPph p ++ be32 ss.length) []
+  simp only [List.length_append, encCommon_length, hl, be32_length, List.append_nil, List.append_assoc] at h2
+  exact h2
+
+/-- **Initiation** (type 4): accepted for every list of Information TLVs (`initiation_roundtrip`
+says what the iterator yields) -/
+theorem initiation_accepted (len : Nat) (ts : List (Nat × Nat × Bytes)) (h : ∀ t ∈ ts, WfTlv t) :
+    fromOctets deps (encCommon len 4 ++ ts.flatMap encTlv) = .ok .initiation := by
+  refine fromOctets_enc len 4 _ _ rfl ?_
+  simp only [checkKind, initiationCheck, commonCheck_enc len 4 (by omega)]
+  have := tlvCheck_enc encTlv ts (fun t ht => framed_tlv t (h t ht)) (fun t _ => encTlv_pos t) (encCommon len 4)
+  rwa [encCommon_length] at this
+
+/-- **Termination** (type 5): accepted for every list of strings and reason codes
+(`termination_roundtrip` says what the iterator yields) -/
+theorem termination_accepted (len : Nat) (ts : List TermInfo) (h : ∀ t ∈ ts, WfTerm t) :
+    fromOctets deps (encCommon len 5 ++ ts.flatMap encTerm) = .ok .termination := by
+  refine fromOctets_enc len 5 _ _ rfl ?_
+  simp only [checkKind, terminationCheck, initiationCheck, commonCheck_enc len 5 (by omega)]
+  have := tlvCheck_enc encTerm ts (fun t ht => framed_term t (h t ht)) (fun t _ => encTerm_pos t) (encCommon len 5)
+  rwa [encCommon_length] at this
+
+/-- **Peer Down** (type 2): accepted with reason 1 / 3 followed by nothing or by a NOTIFICATION the
+NOTIFICATION decoder accepts, with reason 2 followed by (at least) the two octets of the FSM code, and
+with every other reason octet whatever follows (`peer_down_roundtrip` says what the accessors report) -/
+theorem peer_down_accepted (len : Nat) (p : Pph) (hp : WfPph p) (hpt : p.peerType ≤ 3) (reason : Nat)
+    (hr : reason < 256) (payload : Bytes)
+    (h13 : reason = 1 ∨ reason = 3 → payload = [] ∨ ∃ k, deps.notifParse payload = .ok k)
+    (h2 : reason = 2 → 2 ≤ payload.length) :
+    fromOctets deps (encCommon len 2 ++ (encPph p ++ (UInt8.ofNat reason :: payload))) = .ok .peerDown := by
+  refine fromOctets_enc len 2 _ _ rfl ?_
+  have hl := encPph_length p hp
+  simp only [checkKind, peerDownCheck, bothCheck_enc len 2 (by omega) p hp hpt]
+  have hpre : (encCommon len 2 ++ encPph p).length = 48 := by simp [List.length_append, encCommon_length, hl]
+  have h1 := cU8_at (encCommon len 2 ++ encPph p) (UInt8.ofNat reason) payload
+  rw [hpre] at h1
+  simp only [List.append_assoc] at h1
+  rw [h1]
+  have hrn : (UInt8.ofNat reason).toNat = reason := by simp [UInt8.toNat_ofNat']; omega
+  simp only [hrn]
+  have hlen : (encCommon len 2 ++ (encPph p ++ UInt8.ofNat reason :: payload)).length = 49 + payload.length := by
+    simp [List.length_append, encCommon_length, hl]; omega
+  have hdrop : (encCommon len 2 ++ (encPph p ++ UInt8.ofNat reason :: payload)).drop (48 + 1) = payload := by
+    have := drop_mid (encCommon len 2 ++ encPph p ++ [UInt8.ofNat reason]) payload 49
+      (by simp [List.length_append, encCommon_length, hl])
+    simpa [List.append_assoc] using this
+  by_cases c13 : reason = 1 ∨ reason = 3
+  · simp only [c13, if_true, hlen, hdrop]
+    rcases h13 c13 with h | ⟨k, hk⟩
+    · subst h; simp
+    · by_cases he : 48 + 1 ≥ 49 + payload.length
+      · simp [he]
+      · simp only [he, if_false, hk]
+  · simp only [c13, if_false]
+    by_cases c2 : reason = 2
+    · subst c2
+      simp only [if_true]
+      rw [cAdvance_le (by rw [hlen]; have := h2 rfl; omega)]
+    · simp only [c2, if_false]
+
+/-- **Peer Up** (type 3): a message whose body is the 16-octet local-address field (`z` its first 12
+octets, `a4` its last 4), the two ports, two OPEN messages each of which `OpenMessage::check`
+accepts (C03: `Rc.Open.openCheck`) and Information TLVs is ACCEPTED, and the accessors report:
+the ports; the sent OPEN and the received OPEN **byte for byte**; the TLVs in order; the local
+address as IPv4 `a4` when the first 12 octets are zero (RFC 7854: an IPv4 address is carried in the
+last 4 octets, the rest zero-filled) and as the 16 octets `z ++ a4` (IPv6) otherwise.  (As coded,
+message.rs `local_address`: the family is taken from the zero test, not from the per-peer header's
+V flag, so an IPv6 local address inside ::/96 is reported as the IPv4 address of its last four
+octets.) -/
+theorem peer_up_accepted_roundtrip (len : Nat) (p : Pph) (hp : WfPph p) (hpt : p.peerType ≤ 3)
+    (z a4 : Bytes) (hz : z.length = 12) (ha : a4.length = 4) (lp rp : Nat) (hlp : lp < 65536) (hrp : rp < 65536)
+    (sent rcvd : Bytes) (hs : Rc.Open.openCheck sent = .ok ()) (hr : Rc.Open.openCheck rcvd = .ok ())
+    (tlvs : List (Nat × Nat × Bytes)) (ht : ∀ t ∈ tlvs, WfTlv t) :
+    fromOctets deps (encCommon len 3 ++ (encPph p ++ encPeerUpBody z a4 lp rp sent rcvd tlvs)) = .ok .peerUp ∧
+    peerUp deps (encCommon len 3 ++ (encPph p ++ encPeerUpBody z a4 lp rp sent rcvd tlvs))
+      = .ok ⟨!(z.all (· == 0)), if z.all (· == 0) then a4 else z ++ a4, lp, rp, sent, rcvd, tlvs⟩ := by
+  have hl := encPph_length p hp
+  generalize hH : encCommon len 3 ++ encPph p = H
+  have hHl : H.length = 48 := by rw [← hH]; simp [List.length_append, encCommon_length, hl]
+  have hbs : encCommon len 3 ++ (encPph p ++ encPeerUpBody z a4 lp rp sent rcvd tlvs)
+      = H ++ encPeerUpBody z a4 lp rp sent rcvd tlvs := by rw [← hH, List.append_assoc]
+  -- the OPEN decoder on the octets from each OPEN's start on
+  have hps : deps.openParse (sent ++ (rcvd ++ tlvs.flatMap encTlv)) = .ok sent.length := by
+    rw [embedded_open_iff_checked]
+    exact ⟨by simp [List.length_append], by simpa using hs⟩
+  have hpr : deps.openParse (rcvd ++ tlvs.flatMap encTlv) = .ok rcvd.length := by
+    rw [embedded_open_iff_checked]
+    exact ⟨by simp [List.length_append], by simpa using hr⟩
+  have hd68 : (H ++ encPeerUpBody z a4 lp rp sent rcvd tlvs).drop (48 + 20) = sent ++ (rcvd ++ tlvs.flatMap encTlv) := by
+    have := drop_mid (H ++ z ++ a4 ++ be16 lp ++ be16 rp) (sent ++ (rcvd ++ tlvs.flatMap encTlv)) (48 + 20)
+      (by simp [List.length_append, hHl, hz, ha])
+    simpa [encPeerUpBody, List.append_assoc] using this
+  have hd68s : (H ++ encPeerUpBody z a4 lp rp sent rcvd tlvs).drop (48 + 20 + sent.length) = rcvd ++ tlvs.flatMap encTlv := by
+    have := drop_mid (H ++ z ++ a4 ++ be16 lp ++ be16 rp ++ sent) (rcvd ++ tlvs.flatMap encTlv) (48 + 20 + sent.length)
+      (by simp [List.length_append, hHl, hz, ha]; omega)
+    simpa [encPeerUpBody, List.append_assoc] using this
+  have hlen : (H ++ encPeerUpBody z a4 lp rp sent rcvd tlvs).length
+      = 48 + 20 + sent.length + rcvd.length + (tlvs.flatMap encTlv).length := by
+    simp [encPeerUpBody, List.length_append, hHl, hz, ha]; omega
+  have htl := tlvCheck_enc encTlv tlvs (fun t h => framed_tlv t (ht t h)) (fun t _ => encTlv_pos t)
+    (H ++ z ++ a4 ++ be16 lp ++ be16 rp ++ sent ++ rcvd)
+  have hpl : (H ++ z ++ a4 ++ be16 lp ++ be16 rp ++ sent ++ rcvd).length = 48 + 20 + sent.length + rcvd.length := by
+    simp [List.length_append, hHl, hz, ha]; omega
+  have hbs2 : H ++ z ++ a4 ++ be16 lp ++ be16 rp ++ sent ++ rcvd ++ tlvs.flatMap encTlv
+      = H ++ encPeerUpBody z a4 lp rp sent rcvd tlvs := by simp [encPeerUpBody, List.append_assoc]
+  rw [hpl, hbs2] at htl
+  have hiter := infoTlvIter_enc (H ++ z ++ a4 ++ be16 lp ++ be16 rp ++ sent ++ rcvd) tlvs
+    ((H ++ encPeerUpBody z a4 lp rp sent rcvd tlvs).length + 1)
+    (by
+      have : tlvs.length ≤ (tlvs.flatMap encTlv).length := length_le_flatMap encTlv tlvs (fun x => encTlv_pos x)
+      rw [hlen]; omega) ht
+  rw [hpl, hbs2] at hiter
+  rw [hbs]
+  constructor
+  · have hb := bothCheck_enc len 3 (by omega) p hp hpt (encPeerUpBody z a4 lp rp sent rcvd tlvs)
+    rw [hbs] at hb
+    have := fromOctets_enc len 3 .peerUp (encPph p ++ encPeerUpBody z a4 lp rp sent rcvd tlvs) rfl (by
+      rw [hbs]
+      simp only [checkKind, peerUpCheck, hb]
+      rw [cAdvance_le (by rw [hlen]; omega)]
+      simp only [hd68, hps, hd68s, hpr]
+      exact htl)
+    rwa [hbs] at this
+  · have hsl : openSentLen deps (H ++ encPeerUpBody z a4 lp rp sent rcvd tlvs) = .ok sent.length := by
+      unfold openSentLen
+      have : COFF + 20 ≤ (H ++ encPeerUpBody z a4 lp rp sent rcvd tlvs).length := by rw [hlen]; simp [COFF]; omega
+      simp only [this, if_true]
+      simp only [COFF, hd68, hps]
+    have hsent : openSent deps (H ++ encPeerUpBody z a4 lp rp sent rcvd tlvs) = .ok sent := by
+      unfold openSent
+      rw [hsl]
+      simp only [COFF, hd68]
+      simp
+    have hrl : openRcvdLen deps (H ++ encPeerUpBody z a4 lp rp sent rcvd tlvs)
+        = .ok (48 + 20 + sent.length, rcvd.length) := by
+      unfold openRcvdLen
+      rw [hsent]
+      have : COFF + 20 + sent.length ≤ (H ++ encPeerUpBody z a4 lp rp sent rcvd tlvs).length := by
+        rw [hlen]; simp [COFF]; omega
+      simp only [this, if_true]
+      simp only [COFF, hd68s, hpr]
+    have hrcvd : openRcvd deps (H ++ encPeerUpBody z a4 lp rp sent rcvd tlvs) = .ok rcvd := by
+      unfold openRcvd
+      rw [hrl]
+      simp only [hd68s]
+      simp
+    have htlv : peerUpTlvs deps (H ++ encPeerUpBody z a4 lp rp sent rcvd tlvs) = .ok tlvs := by
+      unfold peerUpTlvs
+      rw [hsl]
+      simp only [COFF, hd68s, hpr]
+      rw [sliceFrom_ok (by rw [hlen]; omega)]
+      exact hiter
+    have hz12 : slice (H ++ encPeerUpBody z a4 lp rp sent rcvd tlvs) COFF (COFF + 12) = .ok z := by
+      simpa [encPeerUpBody] using slice_mid H z (a4 ++ (be16 lp ++ (be16 rp ++ (sent ++ (rcvd ++ tlvs.flatMap encTlv))))) COFF (COFF + 12)
+        (by simp [COFF, hHl]) (by simp [hz])
+    have ha4 : slice (H ++ encPeerUpBody z a4 lp rp sent rcvd tlvs) (COFF + 12) (COFF + 16) = .ok a4 := by
+      have := slice_mid (H ++ z) a4 (be16 lp ++ (be16 rp ++ (sent ++ (rcvd ++ tlvs.flatMap encTlv)))) (COFF + 12) (COFF + 16)
+        (by simp [COFF, List.length_append, hHl, hz]) (by simp [ha])
+      simpa [encPeerUpBody, List.append_assoc] using this
+    have ha16 : slice (H ++ encPeerUpBody z a4 lp rp sent rcvd tlvs) COFF (COFF + 16) = .ok (z ++ a4) := by
+      have := slice_mid H (z ++ a4) (be16 lp ++ (be16 rp ++ (sent ++ (rcvd ++ tlvs.flatMap encTlv)))) COFF (COFF + 16)
+        (by simp [COFF, hHl]) (by simp [List.length_append, hz, ha])
+      simpa [encPeerUpBody, List.append_assoc] using this
+    have hlp' : rdBE (H ++ encPeerUpBody z a4 lp rp sent rcvd tlvs) (COFF + 16) 2 = .ok lp := by
+      have := rdBE_mid (H ++ z ++ a4) (be16 lp) (be16 rp ++ (sent ++ (rcvd ++ tlvs.flatMap encTlv))) (COFF + 16) 2
+        (by simp [COFF, List.length_append, hHl, hz, ha]) (by simp)
+      rw [beNat_be16 _ hlp] at this
+      simpa [encPeerUpBody, List.append_assoc] using this
+    have hrp' : rdBE (H ++ encPeerUpBody z a4 lp rp sent rcvd tlvs) (COFF + 18) 2 = .ok rp := by
+      have := rdBE_mid (H ++ z ++ a4 ++ be16 lp) (be16 rp) (sent ++ (rcvd ++ tlvs.flatMap encTlv)) (COFF + 18) 2
+        (by simp [COFF, List.length_append, hHl, hz, ha]) (by simp)
+      rw [beNat_be16 _ hrp] at this
+      simpa [encPeerUpBody, List.append_assoc] using this
+    unfold peerUp
+    rw [hz12, hlp', hrp']
+    dsimp only
+    rw [hsent, hrcvd, htlv]
+    by_cases hv : (z.all fun x => x == 0) = true
+    · simp only [hv, if_true, ha4]
+    · simp only [hv, ha16]
+      simp
+
+/-- non-vacuity: a minimal OPEN and the 55-octet OPEN with four capabilities of the example above
+satisfy the hypothesis on the embedded OPENs -/
+example : Rc.Open.openCheck (Rc.Open.marker ++ [0, 29, 1, 4, 0xfd, 0xea, 0, 90, 10, 0, 0, 2, 0]) = .ok () ∧
+    Rc.Open.openCheck (Rc.Open.marker ++ [0, 55, 1, 4, 0xfd, 0xea, 0, 90, 10, 0, 0, 2, 26, 2, 24,
+      1, 4, 0, 1, 0, 1, 65, 4, 0, 0, 0xfd, 0xea, 69, 4, 0, 1, 1, 3, 73, 4, 1, 0x41, 1, 0x42]) = .ok () := by
+  decide
 
 end Rc.Thm.C15
